@@ -428,7 +428,7 @@ def keylog_text(lines, k):
     for _ in range(k.get("blanks", 0)):
         ls.insert(rnd.randrange(len(ls) + 1), "")
     nl = "\r\n" if k.get("crlf") else "\n"
-    return nl.join(ls) + nl
+    return nl.join(ls) + ("" if k.get("no_final_nl") else nl)
 
 
 def write_capture(b, workdir, pkts=None, container=None, keys=None, name="in"):
@@ -515,4 +515,10 @@ def argv_for(spec, inpath, klpath, outpath, opts=None):
         argv += ["-a"]
     if o.get("c"):
         argv += ["-c"]
+    if o.get("g"):
+        argv += ["-g"]
+    if o.get("d"):
+        argv += ["-d"] + ([o["d"]] if o["d"] != "bare" else [])
+    if o.get("f"):
+        argv += ["-f"] + list(o["f"])
     return argv
